@@ -10,7 +10,6 @@ package zset
 
 import (
 	"fmt"
-	"math"
 	"strings"
 	"sync"
 
@@ -59,7 +58,7 @@ func (z *Set[K]) Empty() bool {
 }
 
 func (z *Set[K]) Size() int {
-	return z.Count(0, math.MaxFloat64)
+	return z.Len()
 }
 
 func (z *Set[K]) Clear() {
